@@ -134,10 +134,10 @@ class Protocol(Component):
     def __process_packet_value(self, packet):
         try:
             value, id, error, meta = load_value(packet)
+            ev = self.__events.get(id)
         except (TypeError, ValueError, LookupError):
             return
 
-        ev = self.__events.get(id)
         if ev is not None:
             if not hasattr(ev, 'value') or not ev.value:
                 ev.value = Value(ev, self)
